@@ -1,0 +1,14 @@
+//go:build linux && verif
+
+package ptracer
+
+// VerifCancelGate, when set, is called by the cancellation goroutine of a trace right before it signals the process
+// group (phase 0) and right after (phase 1) (verification harness only: pins the instant of the cancellation's kill
+// relative to the end of the run).
+var VerifCancelGate func(pgid int, phase int)
+
+func verifCancelGate(pgid int, phase int) {
+	if f := VerifCancelGate; f != nil {
+		f(pgid, phase)
+	}
+}
